@@ -688,3 +688,5 @@ def run(eng, rep):
             sinks.append(vfg.key_of(e))
     rule_snapshots_are_copies(eng, rep, "C03-8.saved-and-returned-records-are-copies", sinks, "the saved-point slot / soln.x / soln.resid")
     rule_mean_over_samples_run(eng, rep, "C03-9.means-are-taken-over-the-samples-actually-run")
+    from .records import rule_eval_results_are_fresh
+    rule_eval_results_are_fresh(eng, rep, "C03-10.evaluation-results-are-fresh-arrays")
